@@ -8,6 +8,17 @@ import sys
 ROOT = os.path.dirname(os.path.dirname(os.path.abspath(__file__)))
 
 CLAIMED = {
+    "C02": dict(
+        category="model_checking",
+        text="For seeded (dataset, SELECT) pairs the harness obtains the optimizer's plan under fresh / stale / empty / adversarial statistics, "
+             "rewrites its join nodes to every (or sampled) assignment of bind / hash / nested-loop, expands star joins, runs under rayon pools "
+             "of 1..16 threads and for permuted triple-pattern orders; TLC requires the complete solution multiset of every execution to equal "
+             "Eval of the pattern in Sparql.tla, hence all configurations agree with the algebra and with each other.",
+        design_ref="DESIGN.md section 5 (C02)",
+        note="Trusted: TLC, Python generator, the plan-rewriting harness (harness/src/c02.rs). Rayon-internal interleavings are not controlled. "
+             "The design-level Plan.tla (Exec = Eval for all candidate plans) is not built; the binding is trace validation only.",
+        technique="TLA+ denotational specification as oracle over a configuration matrix of recorded plan executions (trace validation)",
+    ),
     "C03": dict(
         category="model_checking",
         text="Update.tla defines the effect of the six update forms on the quad set and catalog (WHERE once on the pre-state via Sparql.tla, "
